@@ -145,6 +145,67 @@ v("C15-e", "C15", "dual/dual.go", "\tif wanErr == nil {\n\t\treturn wanVal, nil\
 v("C15-f", "C15", "dual/dual.go", "\tif wanErr == nil || lanErr == nil {\n\t\treturn ai, nil\n\t}", "\tif wanErr == nil && lanErr == nil {\n\t\treturn ai, nil\n\t}", "C15.R5", "FindPeer fails when one DHT fails")
 v("C15-g", "C15", "dual/dual.go", "\t\t\tdht.ProtocolExtension(LanExtension),\n", "", "C15.R3", "LAN protocol extension missing")
 
+# ---------------------------------------------------------------- C03
+v("C03-a", "C03", "routing.go", "\t\t\t\tselect {\n\t\t\t\tcase valCh <- recvdVal{\n\t\t\t\t\tVal:  val,\n\t\t\t\t\tFrom: p,\n\t\t\t\t}:\n\t\t\t\tcase <-ctx.Done():\n\t\t\t\t\treturn nil, ctx.Err()\n\t\t\t\t}", "\t\t\t\tvalCh <- recvdVal{\n\t\t\t\t\tVal:  val,\n\t\t\t\t\tFrom: p,\n\t\t\t\t}", "C03.R1", "value send without context escape")
+v("C03-b", "C03", "lookup_optim.go", "\tif rpcCount == 0 {\n\t\treturn\n\t}\n", "", "C03.R3", "zero guard of the counted wait removed")
+v("C03-c", "C03", "routing.go", "\tgo func() {\n\t\tdefer close(out)\n\t\tbest, peersWithBest, aborted := dht.searchValueQuorum(", "\tgo func() {\n\t\tbest, peersWithBest, aborted := dht.searchValueQuorum(", "C03.R4", "value stream never closed")
+v("C03-d", "C03", "query.go", "\t\tif q.terminated {\n\t\t\treturn\n\t\t}\n\n\t\t// try spawning", "\t\t// try spawning", "C03.R5", "state update after termination becomes reachable")
+v("C03-e", "C03", "dht.go", "\tif cfg.Concurrency < 1 {\n\t\treturn nil, fmt.Errorf(\"dht concurrency must be at least 1, got %d\", cfg.Concurrency)\n\t}\n", "", "C03.R9", "concurrency 0 accepted")
+v("C03-f", "C03", "query.go", "\tdefer q.waitGroup.Wait()\n", "", "C03.R8", "lookup does not join its workers")
+v("C03-g", "C03", "query.go", "\tcancel() // abort outstanding queries\n", "", "C03.R5", "terminate does not cancel outstanding requests")
+v("C03-h", "C03", "fullrt/dht.go", "\terrCh := make(chan error, len(peers))", "\terrCh := make(chan error)", "C03.R7", "unbuffered fan-out result channel")
+v("C03-i", "C03", "records.go", "\tresp := make(chan pubkrs, 2)", "\tresp := make(chan pubkrs, 1)", "C03.R2", "public-key reply channel too small")
+v("C03-j", "C03", "lookup_optim.go", "\tdefer innerCtxCancel()\n", "\tinnerCtxCancel()\n", "C03.R11", "watcher context cancelled at once")
+
+# ---------------------------------------------------------------- C14
+v("C14-a", "C14", "dht.go", "\tdht.wg.Go(dht.persistRTPeersInPeerStore)", "\tgo dht.persistRTPeersInPeerStore()", "C14.R1", "background loop not registered with the WaitGroup")
+v("C14-b", "C14", "records/providers_manager.go", "\tdefer close(pm.closed)\n", "", "C14.R1", "sweeper never signals its exit")
+v("C14-c", "C14", "dht.go", "\tdht.cancel()\n\tdht.wg.Wait()\n", "\tdht.cancel()\n", "C14.R2", "Close does not wait for the loops")
+v("C14-d", "C14", "provider/provider.go", "\t\ts.workerPool.Close()\n\t\ts.wg.Wait()", "\t\ts.wg.Wait()\n\t\ts.workerPool.Close()", "C14.R2", "worker pool closed after the wait")
+v("C14-e", "C14", "dual/dual.go", "\t\treturn nil, errors.Join(err, wan.Close())", "\t\treturn nil, err", "C14.R5", "failed LAN construction leaks the WAN DHT")
+v("C14-f", "C14", "provider/keystore/keystore.go", "\tselect {\n\tcase <-s.close:\n\t\t// Already closed\n\tdefault:\n\t\tclose(s.close)\n\t\t<-s.done // Wait for worker to exit\n", "\t{\n\t\tclose(s.close)\n\t\t<-s.done // Wait for worker to exit\n", "C14.R3", "second Close panics on a closed channel")
+v("C14-g", "C14", "provider/provider.go", "\ts.wgLk.RLock()\n\tif s.closed() {\n\t\ts.wgLk.RUnlock()\n\t\treturn\n\t}\n\ts.wg.Add(1)\n\ts.wgLk.RUnlock()\n\n\tgo s.provideLoop()", "\ts.wg.Add(1)\n\n\tgo s.provideLoop()", "C14.R4", "unguarded wg.Add can race Close")
+v("C14-h", "C14", "routing.go", "\tgo dht.findProvidersAsyncRoutine(ctx, keyMH, count, peerOut)\n\treturn peerOut", "\tgo dht.findProvidersAsyncRoutine(ctx, keyMH, count, peerOut)\n\tgo func() { <-make(chan struct{}) }()\n\treturn peerOut", "C14.R1", "new goroutine without a join class")
+v("C14-i", "C14", "fullrt/dht.go", "\trt.wg.Add(2)\n\tgo rt.runCrawler(ctx)", "\trt.wg.Add(1)\n\tgo rt.runCrawler(ctx)", "C14.R1", "Add count does not match the goroutines")
+v("C14-j", "C14", "provider/internal/connectivity/connectivity.go", "\tgo func() {\n\t\tdefer c.mutex.Unlock()\n\n\t\tif c.probe() {", "\tgo func() {\n\t\tc.mutex.Unlock()\n\n\t\tif c.probe() {", "C14.R1", "probe releases its mutex before it ends")
+
+# ---------------------------------------------------------------- C16
+v("C16-a", "C16", "fullrt/dht.go", "\tif numPeers == 0 {\n\t\treturn errors.New(\"fullrt: routing table is empty, cannot bulk send\")\n\t}\n", "", "C16.R2", "division by an empty peer map")
+v("C16-b", "C16", "fullrt/dht.go", "\tif step <= 0 {\n\t\treturn nil, fmt.Errorf(\"fullrt: invalid configuration: bucket size %d, ip diversity filter limit %d\", dht.bucketSize, dht.ipDiversityFilterLimit)\n\t}\n", "", "C16.R2", "zero stride accepted")
+v("C16-c", "C16", "fullrt/dht.go", "\t\tdht.rtLk.Lock()\n\t\tdht.kMapLk.Lock()\n\t\tdht.peerAddrsLk.Lock()\n\t\tdht.peerAddrs = peerAddrs\n\t\tdht.keyToPeerMap = kPeerMap\n\t\tdht.rt = newRt\n\t\tdht.lastCrawlTime = time.Now()\n\t\tdht.peerAddrsLk.Unlock()\n\t\tdht.kMapLk.Unlock()\n\t\tdht.rtLk.Unlock()", "\t\tdht.peerAddrsLk.Lock()\n\t\tdht.peerAddrs = peerAddrs\n\t\tdht.peerAddrsLk.Unlock()\n\t\tdht.kMapLk.Lock()\n\t\tdht.keyToPeerMap = kPeerMap\n\t\tdht.kMapLk.Unlock()\n\t\tdht.rtLk.Lock()\n\t\tdht.rt = newRt\n\t\tdht.lastCrawlTime = time.Now()\n\t\tdht.rtLk.Unlock()", "C16.R1", "crawl swap split into three critical sections")
+v("C16-d", "C16", "fullrt/dht.go", "\tif dhtcfg.BootstrapPeers != nil {\n\t\tfor _, ai := range dhtcfg.BootstrapPeers() {\n\t\t\ttmpai := ai\n\t\t\tbsPeers = append(bsPeers, &tmpai)\n\t\t}\n\t}", "\tfor _, ai := range dhtcfg.BootstrapPeers() {\n\t\ttmpai := ai\n\t\tbsPeers = append(bsPeers, &tmpai)\n\t}", "C16.R3", "nil config function called")
+v("C16-e", "C16", "crawler/crawler.go", "\t\tif _, ok := peersSeen[ai.ID]; ok {\n\t\t\t// listed more than once: keep the extra addresses, dial only once\n\t\t\tcontinue\n\t\t}\n", "", "C16.R4", "duplicate seeds crawled twice")
+v("C16-f", "C16", "fullrt/dht.go", "\t\tipDiversityFilterLimit:      fullrtcfg.ipDiversityFilterLimit,\n", "", "C16.R7", "diversity limit option not applied")
+v("C16-g", "C16", "fullrt/dht.go", "if _, counted := ipGroupCounts[ipGroup][p]; !counted && len(ipGroupCounts[ipGroup]) >= dht.ipDiversityFilterLimit {", "if len(ipGroupCounts[ipGroup]) > dht.ipDiversityFilterLimit {", "C16.R5", "diversity limit off by one")
+v("C16-h", "C16", "fullrt/dht.go", "\t\tclear(foundPeers)\n", "", "C16.R1", "crawl results accumulate across crawls")
+v("C16-i", "C16", "crawler/crawler.go", "\t\t\toutstanding--\n\t\tcase jobCh <- nextPeerID:", "\t\tcase jobCh <- nextPeerID:", "C16.R4", "outstanding counter never decremented")
+
+# ---------------------------------------------------------------- C17
+v("C17-a", "C17", "provider/provider.go", "\t\ts.failedReprovide(prefix, fmt.Errorf(\"reprovide '%s': %w\", prefix, err))\n\t\ts.reschedulePrefix(prefix)\n\t\treturn", "\t\ts.reschedulePrefix(prefix)\n\t\treturn", "C17.R1", "failed exploration not re-queued")
+v("C17-b", "C17", "provider/provider.go", "\t\ts.failedProvide(prefix, keys, fmt.Errorf(\"provide '%s': %w\", prefix, err))\n\t\treturn", "\t\ts.logger.Warn(err)\n\t\treturn", "C17.R1", "failed provide drops its keys")
+v("C17-c", "C17", "provider/provider.go", "\ts.provideQueue.Remove(keys...)\n\tif !s.scheduleEnabled() {", "\tif !s.scheduleEnabled() {", "C17.R3", "StopProviding leaves keys in the provide queue")
+v("C17-d", "C17", "provider/buffered/provider.go", "\t\ts.executeOperation(s.Provider.ProvideOnce, ops[provideOnceOp])\n", "", "C17.R4", "provide-once operations never executed")
+v("C17-e", "C17", "provider/provider.go", "func (s *SweepingProvider) onOffline() {\n\ts.provideQueue.Clear()\n", "func (s *SweepingProvider) onOffline() {\n", "C17.R6", "provide queue kept when going offline")
+v("C17-f", "C17", "provider/provider.go", "\treturn peer.AddrInfo{ID: s.peerid, Addrs: addrs}, true", "\treturn peer.AddrInfo{ID: s.peerid}, true", "C17.R2", "record without addresses")
+v("C17-g", "C17", "provider/provider.go", "\tprov.cleanupFuncs = append(prov.cleanupFuncs, persistProvideQueue, prov.persistAvgPrefixLen)", "\tprov.cleanupFuncs = append(prov.cleanupFuncs, prov.persistAvgPrefixLen)\n\t_ = persistProvideQueue", "C17.R5", "provide queue not persisted on close")
+
+# ---------------------------------------------------------------- C19
+v("C19-a", "C19", "provider/internal/queue/prefix.go", "\t// Remove the prefix from the prefixes trie.\n\tq.prefixes.Remove(prefix)\n", "", "C19.R2", "popped prefix stays in the trie")
+v("C19-b", "C19", "provider/internal/queue/provide.go", "\tcase len(parts) == 1 && parts[0] != \"\":\n", "\tcase false:\n", "C19.R3", "empty-prefix keys not restored")
+v("C19-c", "C19", "provider/internal/queue/provide.go", "func (q *ProvideQueue) Size() int {\n\tq.mu.Lock()\n\tdefer q.mu.Unlock()\n\treturn q.keys.Size()", "func (q *ProvideQueue) Size() int {\n\treturn q.keys.Size()", "C19.R1", "queue read without the mutex")
+v("C19-d", "C19", "provider/internal/queue/provide.go", "\t// Remove the keys from the keys trie.\n\tkeyspace.PruneSubtrie(q.keys, prefix)\n\n\treturn prefix, keys, true", "\treturn prefix, keys, true", "C19.R5", "dequeued keys stay in the queue")
+v("C19-e", "C19", "provider/internal/queue/provide.go", "\t\tif _, ok := keyspace.FindSubtrie(q.keys, prefix); !ok {\n\t\t\tprefixesToRemove = append(prefixesToRemove, prefix)\n\t\t}", "\t\tprefixesToRemove = append(prefixesToRemove, prefix)", "C19.R4", "prefix dropped although keys remain")
+v("C19-f", "C19", "provider/internal/queue/prefix.go", "\t\t\tq.queue.PushBack(prefix)\n\t\t\tq.prefixes.Add(prefix, struct{}{})", "\t\t\tq.queue.PushBack(prefix)", "C19.R2", "appended prefix missing from the trie")
+
+# ---------------------------------------------------------------- C20
+v("C20-a", "C20", "provider/keystore/resettable_keystore.go", "\tif s.resetInProgress {\n\t\tif err := s.bufferKeys(ctx, keys); err != nil {\n\t\t\treturn nil, err\n\t\t}\n\t}\n\treturn s.keystore.put(ctx, keys)", "\treturn s.keystore.put(ctx, keys)", "C20.R5", "puts during a reset not staged")
+v("C20-b", "C20", "provider/keystore/resettable_keystore.go", "\t\t\ts.logger.Errorf(\"keystore: aborting swap, failed to persist active namespace marker: %v\", err)\n\t\t\top.success = false", "\t\t\ts.logger.Errorf(\"keystore: failed to persist active namespace marker: %v\", err)", "C20.R4", "marker write failure ignored")
+v("C20-c", "C20", "provider/keystore/keystore.go", "\t\t\tcase opSize:\n\t\t\t\top.response <- operationResponse{size: s.size}\n\n\t\t\tcase opCount:", "\t\t\tcase opSize:\n\n\t\t\tcase opCount:", "C20.R2", "size request never answered")
+v("C20-d", "C20", "provider/keystore/keystore.go", "\ts.size = int(binary.BigEndian.Uint64(sizeBytes))\n\t// Delete immediately to keep the key ephemeral.\n\ts.ds.Delete(context.Background(), sizeKey)", "\ts.size = int(binary.BigEndian.Uint64(sizeBytes))", "C20.R6", "persisted size survives")
+v("C20-e", "C20", "provider/keystore/keystore.go", "func (s *keystore) Size(ctx context.Context) (int, error) {", "func (s *keystore) sizeUnsafe() int { return s.size }\n\nfunc (s *keystore) Size(ctx context.Context) (int, error) {", "C20.R1", "size read outside the worker")
+v("C20-f", "C20", "provider/keystore/keystore.go", "\tif err := b.Commit(ctx); err != nil {\n\t\treturn nil, fmt.Errorf(\"cannot commit keystore updates: %w\", err)\n\t}\n\ts.size += len(newKeys)", "\ts.size += len(newKeys)\n\tif err := b.Commit(ctx); err != nil {\n\t\treturn nil, fmt.Errorf(\"cannot commit keystore updates: %w\", err)\n\t}", "C20.R7", "size grows before the commit")
+v("C20-g", "C20", "provider/keystore/resettable_keystore.go", "\t\tif err := s.withAltDs(ctx, func() error { return s.altDs.Sync(ctx, ds.NewKey(\"\")) }); err != nil {\n\t\t\ts.logger.Errorf(\"keystore: aborting swap, altDs sync failed: %v\", err)\n\t\t\top.success = false\n\t\t}", "\t\t_ = 0", "C20.R3", "no sync of the new slot before the marker flips")
+
 here = os.path.dirname(os.path.abspath(__file__))
 json.dump(V, open(os.path.join(here, "variants.json"), "w"), indent=1)
 print(len(V), "variants")
